@@ -208,12 +208,30 @@ def generate(seed, tier, batch):
         else:
             sp["parent"] = s - 1
         segs.append(sp)
+    rz = random.Random("c10z:%d" % seed)
+    zero_free = None
+    cands = [(si, oi) for si, sp in enumerate(segs) for oi, o in enumerate(sp["ops"]) if o["op"] in GATE_SLOTS and o["op"] not in ("MeasureHomodyne", "LossChannel") and o.get("p")]
+    if cands and rz.random() < 0.15:
+        # the first parameter of one operation is a free parameter that will be bound to exactly 0.0
+        si, oi = rz.choice(cands)
+        segs[si]["ops"][oi]["p"][0] = {"free": "z0"}
+        zero_free = "z0"
     used_free = sorted({f for sp in segs for o in sp["ops"] for e in o.get("p", []) for f in free_deps(e)})
     bind = {f: rnd(r, -0.8, 0.8) for f in used_free}
+    if zero_free:
+        bind[zero_free] = 0.0
     tape = {}
     for m in range(n):
         for k in range(12):
             tape["%d:%d" % (m, k)] = rnd(r, -1.2, 1.2)
+    # exact special values: a free parameter bound to 0.0, an outcome of exactly 0.0 (library shortcuts that test a parameter against zero see a
+    # number in the substituted circuit and a symbol in the symbolic one)
+    for f in sorted(bind):
+        if rz.random() < 0.15:
+            bind[f] = 0.0
+    for key in sorted(tape):
+        if rz.random() < 0.04:
+            tape[key] = 0.0
     how = r.choice([{"mode": "run", "optimize": False}, {"mode": "run", "optimize": True}, {"mode": "compile", "compiler": backend, "optimize": r.random() < 0.5}])
     if backend == "fock":
         how["optimize"] = False
